@@ -65,8 +65,11 @@ func (core *JApiCore) collectPathVariables(d *directive.Directive) *jerr.JApiErr
 
 	parentDirective := *d.Parent
 
+	// Two Path directives of one parent. The parents are compared by identity:
+	// the copies of a directive made by several PASTEs of one macro have the same
+	// coordinates in the source but are different directives.
 	for i := range core.rawPathVariables {
-		if core.rawPathVariables[i].parentDirective.Equal(parentDirective) {
+		if core.rawPathVariables[i].parent == d.Parent {
 			return d.KeywordError(jerr.NotUniqueDirective)
 		}
 	}
@@ -74,6 +77,7 @@ func (core *JApiCore) collectPathVariables(d *directive.Directive) *jerr.JApiErr
 	core.rawPathVariables = append(core.rawPathVariables, rawPathVariable{
 		pathDirective:   *d,
 		parentDirective: parentDirective,
+		parent:          d.Parent,
 		schema:          s,
 		parameters:      pp,
 	})
